@@ -2,7 +2,7 @@ from ..rtcheck import RuntimeCheck
 from ..gen_runtime import Profile
 from .. import scn
 from ..scn import Pat, seg, term, stub, tup
-import itertools
+import itertools, re
 
 RESPS = ['ret', 'def', 'ans', 'pan', 'unm', 'dfl']
 
@@ -54,6 +54,32 @@ class Check(RuntimeCheck):
                     return f"the matches of the chain received {got}, the quantifier chain assigns {sorted(want)}"
                 return None
         Par().explore_into(rep, tier, seed, merge=True)
+        # the same on real threads, uninstrumented: 16 clones racing over one chain of 600 segments of 40 calls each and an open tail —
+        # every segment's response is handed out exactly 40 times, whatever reads and writes the lookup does in between
+        from ..parcheck import run_real
+        from .. import engine
+        reps = 900 if tier == 'quick' else 20000            # rounds of 16 threads x 2 calls on the SAME mock
+        nseg = (reps * 32 * 3 // 4) // 40
+        segs = [seg(f"ret{i}", 'n40') for i in range(1, nseg + 1)] + [seg(f"ret{nseg + 1}", '-')]
+        text = par_scenario('stress', 'strict', term(1, 'each', Pat(mask=255, chain=segs)), [[(1, 0), (1, 0)]] * 16)
+        try:
+            real, _ = run_real(text, 0, 0, seed, stress=reps)
+            line = next((l for l in real['stress'] if l.startswith('stress ')), '')
+        except Exception as e:
+            line = f"error {e}"
+        m = re.search(r'calls=(\d+) hist=(\S*) ', line)
+        if not m:
+            path = engine.write_replay(self.prop, 'toolerror', text + '\n' + line, ["the stress run produced no summary line"])
+            rep.violation(path, "chain stress run failed: " + line[:200], no_input=True)
+        else:
+            calls = int(m.group(1))
+            hist = dict(x.rsplit('x', 1) for x in m.group(2).split(',') if x)
+            bad = [f"ret:{i} x{hist.get(f'ret:{i}', 0)}" for i in range(1, nseg + 1) if int(hist.get(f'ret:{i}', 0)) != 40]
+            tail = calls - 40 * nseg
+            if bad or int(hist.get(f'ret:{nseg + 1}', 0)) != tail:
+                path = engine.write_replay(self.prop, 'stress', text, [f"property C02 violated by the real code: {reps} rounds of 16 threads x 2 calls on clones of one mock whose pattern chains {nseg} segments of 40 calls and an open tail: every segment's response must be handed out exactly 40 times, the tail {tail} times", line[:600], f"replay: SCHED_STRESS={reps} /verif/harness/target/debug/sched < this file (uninstrumented real threads; repeat if the race does not show)"])
+                rep.violation(path, f"concurrent matches of one chain did not receive the responses of positions 1..N: {', '.join(bad[:6])} (expected x40 each); tail x{hist.get(f'ret:{nseg + 1}', 0)} (expected x{tail})")
+            rep.coverage['chain_stress_calls'] = calls
 
     def exhaustive(self, tier):
         maxseg = 3 if tier == 'quick' else 4
